@@ -5,7 +5,9 @@ from checks.generic import standard, compile_gen, first_index, COMMON_TRUSTED
 PROPS = ["c20_published", "c20_published_sites", "c20_site_verdict_needed", "c20_issue_delivered",
          "c20_nonblocking", "c20_order", "c20_order_complete", "c20_lagging_reader_complete",
          "c20_roundtrip", "c20_expire", "c20_expire_only_old", "c20_history", "c20_loop_request", "c20_loop_saved",
-         "c20_old_aws_refuted", "c20_old_roundtrip_refuted", "c20_old_expire_refuted"]
+         "c20_old_aws_refuted", "c20_old_roundtrip_refuted", "c20_old_expire_refuted",
+         "c20_stalled_subscriber", "c20_waiting_fanout_refuted", "c20_save_atomic", "c20_saves_last_renamed",
+         "c20_backup_rename_refuted", "c20_startup_name_only", "c20_startup_leftover"]
 
 TRUSTED = [
     "encoding/gob, bufio and Dominator fsutil.CreateRenamingWriter between saveEvents and loadEvents (run for real on every save/reload, not modelled)",
